@@ -29,6 +29,23 @@ Beyond the small scope (round 2):
   * magnitudes and ties: capacities / costs that are huge, equal everywhere, or differ by exactly 1 on top of 10^6..10^9
     (all sums stay below 2^53, so float bookkeeping inside network_simplex is still exact), demands that are exact multiples
     of the common capacity and one more / one less.
+
+Presentation diversity (round 3, checks/flow_present.py): the instances of the small-scope and mid-size generators (exhaustive
+small networks, degenerate shapes, random networks with 3..8 nodes, assignment matrices up to 6 x 6) are dressed up before the
+call, the answer is mapped back and judged by the same clauses on the plain integer instance:
+  * min_cost_flow (generic `Node`): node labels None (as source / sink / inner node), falsy values, pairs of other nodes, nested
+    tuples, frozensets, labels that collide after str(), equal-but-differently-typed spellings of one node (2 / 2.0 / True) in
+    keys, arc heads and the source / sink argument, hash-colliding ints, mutually incomparable mixtures; dict / defaultdict(list)
+    / OrderedDict; adjacency list or tuple; arc records tuples or lists; nodes that occur as arc heads only - also the source
+    or the sink, which the plain generator always makes keys - or as keys with an empty adjacency, in any key order; capacity /
+    cost / demand as int or as float with integral value, mixed in one graph with an int first;
+  * network_simplex (nodes are 0..n-1 by signature): arcs as a list or tuple of tuples or lists; capacities, costs and supplies
+    each all-int, all-float (integral values) or mixed with an int first; supplies as list or tuple;
+  * solve_assignment: matrix as list / tuple of list / tuple rows, entries int, float (integral values) or mixed, int first;
+  * C09/<f>/frame:inputs-unchanged        the caller's graph / arc list / supply list / matrix prints the same after the call
+  * C09/<f>/frame:same-call-same-answer   the same call repeated on the same objects returns the same status, objective, solution.
+Not used (outside the statement): non-integral costs or capacities ("integer capacities and integer costs"), bool numbers,
+one-shot iterables (the signatures say list / Sequence), node ids other than ints for network_simplex.
 """
 from __future__ import annotations
 
@@ -40,6 +57,7 @@ import signal
 import subprocess
 import sys
 
+from checks import flow_present as fp
 from vf.core import Ctx, use_repo
 from vf.pool import pmap
 
@@ -131,6 +149,7 @@ def judge(fname, st, res, n, arcs, supplies, oracle, back=None):
     if bad:
         out.append((Pf + "feasible-flow", "; ".join(bad[:3]) + f"  [returned flow {show}]"))
     else:
+        sol = {k: int(f) for k, f in sol.items()}  # integral by now; a float spelling (2.0) must not reach range()
         costs = decomposition_costs(arcs, sol)
         if res.objective not in costs:
             out.append((Pf + "cost-is-sum", f"objective {res.objective!r}, but the returned flow {show} costs "
@@ -205,9 +224,13 @@ def eval_flow_case(case, budget=BUDGET1, only=None, oracle=None, budget_ns=None,
         scheme = case.get("labels", "int")
         g = objs["g"] if objs else build_graph(n, arcs, s, t, scheme)
         back = {_label(scheme, i): i for i in range(n)}
+        before = fp.snap(g) if objs is not None else None
         st, res = guarded(budget, min_cost_flow, g, _label(scheme, s), _label(scheme, t), d)
         if objs is not None:
             objs["r_m"] = summary(st, res, back)
+            fr = _unchanged("min_cost_flow", before, fp.snap(g), ["graph"])  # history mode relies on it: the next edits
+            out += fr  # are addressed by position in the caller's own objects
+            info["mutated"] = info.get("mutated", False) or bool(fr)
         v = judge("min_cost_flow", st, res, n, arcs, supplies, oracle, back)
         if st == "timeout":
             info["timeouts"].append("min_cost_flow")
@@ -217,8 +240,12 @@ def eval_flow_case(case, budget=BUDGET1, only=None, oracle=None, budget_ns=None,
         out += v
     if only in (None, "network_simplex"):
         if objs is not None:  # history mode: the caller's own list objects, not copies
+            before = fp.snap(objs["A"], objs["B"])
             st, res = guarded(budget_ns or budget, network_simplex, n, objs["A"], objs["B"])
             objs["r_n"] = summary(st, res, None)
+            fr = _unchanged("network_simplex", before, fp.snap(objs["A"], objs["B"]), ["arc list", "supply list"])
+            out += fr
+            info["mutated"] = info.get("mutated", False) or bool(fr)
         else:
             st, res = guarded(budget_ns or budget, network_simplex, n, [tuple(a) for a in arcs], list(supplies))
         v = judge("network_simplex", st, res, n, arcs, supplies, oracle)
@@ -240,7 +267,7 @@ def eval_flow_case(case, budget=BUDGET1, only=None, oracle=None, budget_ns=None,
     return out, info
 
 
-def eval_assign_case(case, budget=BUDGET1_ASSIGN, same_object=None):
+def eval_assign_case(case, budget=BUDGET1_ASSIGN, same_object=None, keep=None):
     from oracles.flow_exact import assignment_brute, assignment_optimum
     from solvor.flow import solve_assignment
     from solvor.types import Status
@@ -257,6 +284,8 @@ def eval_assign_case(case, budget=BUDGET1_ASSIGN, same_object=None):
             return [], info
         budget = big_budget(n * m * 3 / 8, budget > BUDGET1_ASSIGN)
     st, res = guarded(budget, solve_assignment, same_object if same_object is not None else [list(r) for r in mat])
+    if keep is not None:
+        keep["st"], keep["res"], keep["budget"] = st, res, budget
     if st == "timeout":
         _BREAKER["solve_assignment"] = n * m > 36
         info["timeouts"].append("solve_assignment")
@@ -289,7 +318,125 @@ def eval_case(case, budget=BUDGET1, only=None, budget_ns=None):
         return eval_history(case, budget, budget_ns)[:2]
     if case["kind"] == "assign-history":
         return eval_assign_history(case, max(budget, BUDGET1_ASSIGN))
+    if case["kind"] == "present":
+        return eval_present_case(case, budget, only, budget_ns)
+    if case["kind"] == "assign-present":
+        return eval_assign_present(case, max(budget, BUDGET1_ASSIGN))
     return eval_flow_case(case, budget, only, budget_ns=budget_ns)
+
+
+# ------------------------------------------------------------------------------- round 3: presentation diversity
+def _same_answer(fname, st, res, st2, res2):
+    """frame:same-call-same-answer for two outcomes of the identical call on the same objects."""
+    if st != "ok" or st2 == "timeout":
+        return []
+    ob = f"C09/{fname}/frame:same-call-same-answer"
+    if st2 == "exc":
+        return [(ob, f"the first call returned {res.status.name} objective {res.objective!r}, the same call again raised {res2}")]
+    if (res.status, res.objective, res.solution) != (res2.status, res2.objective, res2.solution):
+        return [(ob, f"the first call returned {res.status.name} objective {res.objective!r} solution {str(res.solution)[:200]}, the "
+                     f"same call again {res2.status.name} objective {res2.objective!r} solution {str(res2.solution)[:200]}")]
+    return []
+
+
+def _unchanged(fname, before, after, what):
+    if before == after:
+        return []
+    k = next(i for i in range(len(before)) if before[i] != after[i])
+    return [(f"C09/{fname}/frame:inputs-unchanged", f"the caller's {what[k]} was {before[k][:400]} before the call and is "
+             f"{after[k][:400]} after it")]
+
+
+def present_mcf(case):
+    """-> (graph object, back map, source spelling, sink spelling, demand) of a kind-'present' case, or None when the supply
+    vector is not one producer / one consumer."""
+    supplies = case["supplies"]
+    shape = st_shape(supplies)
+    if shape is None and not any(supplies) and "s" in case:
+        shape = (case["s"], case["t"], 0)
+    if shape is None:
+        return None
+    s, t, d = shape
+    pres, alias = case["pres"], case.get("alias", {})
+    g = fp.present_graph(case["n"], case["arcs"], case["labels"], alias, pres)
+    back = {fp.mk_label(x): i for i, x in enumerate(case["labels"])}
+    return (g, back, fp.call_label(s, case["labels"], alias, pres), fp.call_label(t, case["labels"], alias, pres),
+            float(d) if pres.get("demand") == "float" else d)
+
+
+def present_ns(case):
+    pres = case["pres"]
+    return (fp.present_arc_list(case["arcs"], pres),
+            fp.present_vector(case["supplies"], pres.get("numsup", "int"), pres.get("sup_c", "list"), pres["seed"]))
+
+
+def eval_present_case(case, budget=BUDGET1, only=None, budget_ns=None):
+    """kind 'present': n, arcs [[u,v,cap,cost]] and supplies over nodes 0..n-1 (plain ints) + labels / alias / pres.  Both
+    solvers are called twice on their presented inputs; verdicts come from the plain instance."""
+    from solvor.flow import min_cost_flow
+    from solvor.network_simplex import network_simplex
+    from solvor.types import Status
+
+    n = case["n"]
+    arcs = [tuple(a) for a in case["arcs"]]
+    supplies = list(case["supplies"])
+    oracle = oracle_for(n, arcs, supplies)
+    out = []
+    info = {"oracle": oracle["status"], "timeouts": [], "skipped": 0, "calls": {}}
+    r_m = r_n = None
+    pm = present_mcf(case)
+    if pm is not None and only in (None, "min_cost_flow"):
+        g, back, src, snk, d = pm
+        before = fp.snap(g)
+        st, res = guarded(budget, min_cost_flow, g, src, snk, d)
+        out += _unchanged("min_cost_flow", before, fp.snap(g), ["graph"])
+        out += judge("min_cost_flow", st, res, n, arcs, supplies, oracle, back)
+        info["calls"]["min_cost_flow"] = 1
+        if st == "timeout":
+            info["timeouts"].append("min_cost_flow")
+        elif st == "ok":
+            r_m = res
+            st2, res2 = guarded(budget, min_cost_flow, g, src, snk, d)
+            info["calls"]["min_cost_flow"] = 2
+            out += _same_answer("min_cost_flow", st, res, st2, res2)
+    if only in (None, "network_simplex"):
+        A, B = present_ns(case)
+        before = fp.snap(A, B)
+        st, res = guarded(budget_ns or budget, network_simplex, n, A, B)
+        out += _unchanged("network_simplex", before, fp.snap(A, B), ["arc list", "supply list"])
+        out += judge("network_simplex", st, res, n, arcs, supplies, oracle)
+        info["calls"]["network_simplex"] = 1
+        if st == "timeout":
+            info["timeouts"].append("network_simplex")
+        elif st == "ok":
+            r_n = res
+            st2, res2 = guarded(budget_ns or budget, network_simplex, n, A, B)
+            info["calls"]["network_simplex"] = 2
+            out += _same_answer("network_simplex", st, res, st2, res2)
+    if r_m is not None and r_n is not None:
+        im, i_n = r_m.status == Status.INFEASIBLE, r_n.status == Status.INFEASIBLE
+        if im != i_n:
+            out.append(("C09/agree", f"min_cost_flow says {r_m.status.name}, network_simplex says {r_n.status.name}"))
+        elif not im and r_m.objective != r_n.objective:
+            out.append(("C09/agree", f"min_cost_flow cost {r_m.objective!r}, network_simplex cost {r_n.objective!r}"))
+    info["both"] = pm is not None
+    info["iters"] = {"min_cost_flow": getattr(r_m, "iterations", 0) or 0, "network_simplex": getattr(r_n, "iterations", 0) or 0}
+    return out, info
+
+
+def eval_assign_present(case, budget=BUDGET1_ASSIGN):
+    from solvor.flow import solve_assignment
+    M = fp.present_matrix(case["matrix"], case["pres"])
+    before = fp.snap(M)
+    keep = {}
+    out, info = eval_assign_case({"kind": "assign", "matrix": case["matrix"]}, budget, same_object=M, keep=keep)
+    out = _unchanged("solve_assignment", before, fp.snap(M), ["cost matrix"]) + out
+    info["calls"] = {"solve_assignment": 1}
+    if keep.get("st") == "ok":
+        st2, res2 = guarded(keep["budget"], solve_assignment, M)
+        info["calls"]["solve_assignment"] = 2
+        out += _same_answer("solve_assignment", "ok", keep["res"], st2, res2)
+    return out, info
 
 
 # ------------------------------------------------------------------------------------------------ history mode
@@ -373,6 +520,9 @@ def eval_history(case, budget=BUDGET1, budget_ns=None, want_last=False):
         last = {"n": n, "arcs": sub["arcs"], "supplies": sub["supplies"], "s": stp["s"], "t": stp["t"], "labels": scheme,
                 "graph": [[u, [list(a) for a in g[u]]] for u in g], "both": i["both"],
                 "r_m": objs.get("r_m"), "r_n": objs.get("r_n")}
+        if i.get("mutated"):  # a solver changed the caller's objects (reported above): the remaining steps address arcs by
+            info["mutated"] = True  # position and mean nothing any more; no fresh-process comparison either
+            break
     if want_last:
         return out, info, last
     return out, info
@@ -423,7 +573,7 @@ def fresh_process(items):
 
 
 def nontrivial(case):
-    if case["kind"] == "assign-history":
+    if case["kind"] in ("assign-history", "assign-present"):
         return nontrivial({"kind": "assign", "matrix": case["matrix"]})
     if case["kind"] == "history":
         return any(any(st["supplies"]) for st in case["steps"]) and sum(1 for a in case["arcs"] if a[2] > 0) >= 2
@@ -435,7 +585,7 @@ def nontrivial(case):
 
 
 def case_key(case):
-    if case["kind"] in ("history", "assign-history"):
+    if case["kind"] in ("history", "assign-history", "present", "assign-present"):
         return hash(json.dumps(case, sort_keys=True))
     if case["kind"] == "assign":
         return hash(("a", tuple(map(tuple, case["matrix"]))))
@@ -444,7 +594,7 @@ def case_key(case):
 
 
 def instance_shape(case):
-    if case["kind"] in ("assign", "assign-history"):
+    if case["kind"] in ("assign", "assign-history", "assign-present"):
         return "matrix"
     pairs = [(a[0], a[1]) for a in case["arcs"]]
     par = len(set(pairs)) < len(pairs)
@@ -456,7 +606,7 @@ def instance_shape(case):
 def qualified(ob, case):
     """Obligation name reported for a violation: the clause plus the class of the instance ('@simple-digraph',
     '@parallel-arcs', ...), so that defects with different causes get their own replay files and known-finding entries."""
-    if case["kind"] in ("assign", "assign-history"):
+    if case["kind"] in ("assign", "assign-history", "assign-present"):
         return ob
     return ob + "@" + instance_shape(case).replace(" ", "-")
 
@@ -486,7 +636,7 @@ class Tally:
         if nontrivial(case):
             self.keys.append(case_key(case))
         shp = instance_shape(case)
-        called = ["solve_assignment"] if case["kind"] == "assign" else ["network_simplex"] + (["min_cost_flow"] if info.get("both") else [])
+        called = ["solve_assignment"] if case["kind"] in ("assign", "assign-present") else ["network_simplex"] + (["min_cost_flow"] if info.get("both") else [])
         ncalls = info.get("calls") or {fn: 1 for fn in called}
         for fn, c in ncalls.items():
             self.calls[fn] = self.calls.get(fn, 0) + c
@@ -855,7 +1005,7 @@ def w_seeded(job):
             case = gen_history_case(rng)
             out, info, last = eval_history(case, want_last=True)
             tl.add(case, out, info)
-            if not info["timeouts"] and len(lasts) < 12:
+            if not info["timeouts"] and not info.get("mutated") and len(lasts) < 12:
                 lasts.append((case, last))
             continue
         elif kind == "assign-history":
@@ -880,9 +1030,117 @@ def w_assign_exhaustive(job):
     return tl.pack() + (0,)
 
 
+# ----------------------------------------------------------- round 3: presentation diversity (generators, workers)
+def random_pres(rng, scheme):
+    pr = fp.random_pres(rng, scheme)
+    three = ("int", "int", "float", "mixed")
+    pr.update(demand=rng.choice(("int", "int", "float")), numcap=rng.choice(three), numcost=rng.choice(three),
+              numsup=rng.choice(three), arcs_c=rng.choice(("list", "list", "tuple")), sup_c=rng.choice(("list", "list", "tuple")))
+    return pr
+
+
+def dress(base, rng, scheme=None):
+    """A kind-'flow' case in a randomly chosen presentation."""
+    n = base["n"]
+    shape = st_shape(base["supplies"])
+    s, t = (shape[0], shape[1]) if shape else (base.get("s", 0), base.get("t", n - 1))
+    scheme = scheme or rng.choice(fp.LABEL_SCHEMES)
+    labels, alias = fp.labels_for(scheme, n, s, t, rng)
+    case = {"kind": "present", "n": n, "arcs": [list(a) for a in base["arcs"]], "supplies": list(base["supplies"]),
+            "labels": labels, "alias": alias, "pres": random_pres(rng, scheme)}
+    if "s" in base:
+        case["s"], case["t"] = base["s"], base["t"]
+    return case
+
+
+def dress_assign(base, rng):
+    return {"kind": "assign-present", "matrix": [list(r) for r in base["matrix"]],
+            "pres": {"outer": rng.choice(("list", "list", "tuple")), "rows": rng.choice(("list", "tuple", "mixed")),
+                     "num": rng.choice(("int", "float", "mixed", "mixed")), "seed": rng.randrange(1 << 30)}}
+
+
+PRES_KEYS = ("scheme", "map", "adj", "arc", "num", "keys", "demand", "numcap", "numcost", "numsup", "arcs_c", "sup_c", "outer", "rows")
+
+
+def pres_counts(counts, case):
+    for k in PRES_KEYS:
+        if k in case["pres"]:
+            key = f"{'matrix ' if case['kind'] == 'assign-present' else ''}{k}={case['pres'][k]}"
+            counts[key] = counts.get(key, 0) + 1
+
+
+class _Schemes:
+    def __init__(self, rng):
+        self.i = rng.randrange(len(fp.LABEL_SCHEMES))
+
+    def next(self):
+        self.i += 1
+        return fp.LABEL_SCHEMES[self.i % len(fp.LABEL_SCHEMES)]
+
+
+def w_present_exh(job):
+    """job = (n, k, prefix, caps, costs, bmax, seed, reps): as w_exhaustive, every (multiset, balanced supply vector) in `reps`
+    presentations (label schemes round robin, arc order shuffled, the other transformers drawn per instance)."""
+    from oracles.flow_exact import has_negative_cycle
+    n, k, prefix, caps, costs, bmax, seed, reps = job
+    rng = random.Random(seed)
+    types = arc_types(n, caps, costs)
+    vecs = balanced_vectors(n, bmax)
+    tl = Tally()
+    counts = {}
+    sch = _Schemes(rng)
+    lo = prefix[-1] if prefix else 0
+    skipped = 0
+    for rest in itertools.combinations_with_replacement(range(lo, len(types)), k - len(prefix)):
+        arcs = [list(types[i]) for i in prefix + rest]
+        if has_negative_cycle(n, arcs):
+            skipped += 1
+            continue
+        rng.shuffle(arcs)
+        for b in vecs:
+            for _ in range(reps):
+                case = dress({"kind": "flow", "n": n, "arcs": arcs, "supplies": b, "s": 0, "t": n - 1}, rng, sch.next())
+                out, info = eval_present_case(case)
+                tl.add(case, out, info)
+                pres_counts(counts, case)
+    return tl.pack() + (skipped, {"lasts": [], "max_iter": tl.max_iter, "skipped": 0, "pres": counts})
+
+
+def w_present_seeded(job):
+    kind, seed, count, lo, hi = job
+    rng = random.Random(seed)
+    tl = Tally()
+    counts = {}
+    sch = _Schemes(rng)
+    for _ in range(count):
+        if kind == "assign":
+            case = dress_assign(gen_assign_case(rng, hi), rng)
+        else:
+            case = dress(gen_flow_case(rng, lo, hi), rng, sch.next())
+        out, info = eval_case(case)
+        tl.add(case, out, info)
+        pres_counts(counts, case)
+    return tl.pack() + (0, {"lasts": [], "max_iter": tl.max_iter, "skipped": 0, "pres": counts})
+
+
+def w_present_list(job):
+    bases, seed, reps = job
+    rng = random.Random(seed)
+    tl = Tally()
+    counts = {}
+    sch = _Schemes(rng)
+    for b in bases:
+        for _ in range(reps):
+            case = dress_assign(b, rng) if b["kind"] == "assign" else dress(b, rng, sch.next())
+            out, info = eval_case(case)
+            tl.add(case, out, info)
+            pres_counts(counts, case)
+    return tl.pack() + (0, {"lasts": [], "max_iter": tl.max_iter, "skipped": 0, "pres": counts})
+
+
 def w_confirm(item):
     case, fname = item
-    only = None if case["kind"] == "assign" else fname
+    only = None if case["kind"] in ("assign", "assign-present") else fname
     out, info = eval_case(case, budget=BUDGET2, only=only, budget_ns=BUDGET2_NS)
     return case, fname, fname in info["timeouts"], [(ob, d) for ob, d in out if not ob.endswith("terminates")]
 
@@ -914,7 +1172,7 @@ def w_list(cases):
 
 # ------------------------------------------------------------------------------------------------------- run
 def _size(case):
-    if case["kind"] in ("assign", "assign-history"):
+    if case["kind"] in ("assign", "assign-history", "assign-present"):
         return (len(case["matrix"]) * len(case["matrix"][0]) if case["matrix"] else 0, len(case.get("steps", [])), 0)
     if case["kind"] == "history":
         return (case["n"], len(case["arcs"]) + sum(1 + len(st["edits"]) for st in case["steps"]),
@@ -938,12 +1196,15 @@ def run(ctx: Ctx):
     def scope_run(name, results, **desc):
         n = n_skip = 0
         max_iter = {}
+        pres_n = {}
         fails, calls, shapes = {}, {}, {}
         viol = []
         failing_cases = n_to = skipped = 0
         for r in results:
             rn, keys, rviol, rfails, rfc, touts, ntouts, rcalls, rshape, rskip = r[:10]
             if len(r) > 10:
+                for k_, c_ in r[10].get("pres", {}).items():
+                    pres_n[k_] = pres_n.get(k_, 0) + c_
                 lasts_all.extend(r[10]["lasts"])
                 n_skip += r[10]["skipped"]
                 for fn, it in r[10]["max_iter"].items():
@@ -967,7 +1228,8 @@ def run(ctx: Ctx):
         ctx.scope(name, evaluations=n, calls=calls, cases_with_a_failing_clause=failing_cases, failing_by_obligation=fails,
                   outcome_by_function_and_instance_shape=shapes, sweep_timeouts=n_to,
                   skipped_negative_cycle=skipped, **({"largest_iteration_count_reported": max_iter} if max_iter else {}),
-                  **({"big_calls_skipped_after_a_timeout_in_the_same_job": n_skip} if n_skip else {}), **desc)
+                  **({"big_calls_skipped_after_a_timeout_in_the_same_job": n_skip} if n_skip else {}),
+                  **({"presentations_measured": dict(sorted(pres_n.items()))} if pres_n else {}), **desc)
         notes[name] = {"evaluations": n, "calls": calls, "cases_with_a_failing_clause": failing_cases,
                        "failing_by_obligation": fails, "outcome_by_function_and_instance_shape": shapes,
                        "sweep_timeouts": n_to}
@@ -1090,6 +1352,41 @@ def run(ctx: Ctx):
               how="`python -m checks.C09 --fresh`: new interpreter, equal arc list / supply list / graph dict built from scratch; "
                   "status, objective and flow dictionary must be identical")
 
+    # ---- round 3: presentation diversity
+    what = dict(labels_min_cost_flow={k: fp.SCHEME_DOC[k] for k in fp.LABEL_SCHEMES},
+                numbers="capacity / cost (per arc), demand, supplies: int | float with integral value | mixed with an int first",
+                containers="min_cost_flow: dict | defaultdict(list) | OrderedDict, adjacency list | tuple, arc records tuple | list; "
+                           "network_simplex: arcs list | tuple of tuples | lists, supplies list | tuple; solve_assignment: list | tuple "
+                           "of list | tuple rows", keys=fp.KEY_DOC,
+                clauses="all ensures clauses on the plain instance + frame:inputs-unchanged + frame:same-call-same-answer; every "
+                        "solver is called twice per instance")
+    reps = 1 if ctx.quick else 6
+    if ctx.quick:
+        pplan = [(2, 3, (0, 1, 2), (-1, 0, 2), 2), (3, 2, (1, 2), (-1, 0, 2), 1)]
+    else:
+        pplan = [(2, 3, (0, 1, 2), full_costs, 2), (3, 2, (0, 1, 2), (-1, 0, 1, 2), 2), (3, 3, (1, 2), (0, 1, 3), 1), (4, 2, (1, 2), (0, 1, 3), 1)]
+    jobs = []
+    for n, K, caps, costs, bmax in pplan:
+        for k in range(0, K + 1):
+            jobs += [j[:6] + (rng.randrange(1 << 60), reps) for j in exhaustive_jobs(n, k, caps, costs, bmax, "fwd")]
+    rng.shuffle(jobs)
+    scope_run("presentation diversity: exhaustive small networks", pmap(w_present_exh, jobs),
+              plans=[f"n={n} arcs<={K} caps={list(caps)} costs={list(costs)} |supply|<={bmax}" for n, K, caps, costs, bmax in pplan],
+              presentations_per_instance=reps, exhaustive=True, **what)
+    bases = degenerate_cases()
+    scope_run("presentation diversity: degenerate shapes", [w_present_list((bases, rng.randrange(1 << 60), 13 if ctx.quick else 52))],
+              bases=len(bases), **what)
+    nj = 60 if ctx.quick else 1500
+    jobs = [("flow", rng.randrange(1 << 60), per, 3, 8) for _ in range(nj)]
+    scope_run("presentation diversity: random networks", pmap(w_present_seeded, jobs), runs=nj * per, nodes="3..8", **what)
+    nj = 12 if ctx.quick else 300
+    jobs = [("assign", rng.randrange(1 << 60), per, 1, 6) for _ in range(nj)]
+    abases = [{"kind": "assign", "matrix": [list(f[i * m:(i + 1) * m]) for i in range(n)]}
+              for n, m, vals in ((2, 2, (0, 1, 2, 3)), (2, 3, (0, 1, 2)), (3, 2, (0, 1, 2))) for f in itertools.product(vals, repeat=n * m)]
+    chunks = [(abases[i::16], rng.randrange(1 << 60), 1 if ctx.quick else 4) for i in range(16)]
+    scope_run("presentation diversity: assignment matrices", pmap(w_present_seeded, jobs) + pmap(w_present_list, chunks, chunksize=1),
+              random_runs=nj * per, shape="1..6 x 1..6", exhaustive_bases="2x2 over 0..3, 2x3 and 3x2 over 0..2", **what)
+
     pending.sort(key=lambda v: _size(v[1]))
     seen = {}
     for ob, case, detail in pending:
@@ -1140,7 +1437,10 @@ def run(ctx: Ctx):
                 "network + steps (in-place edits, supply vector, terminals); both solvers are called after every step on the same "
                 "list / dict objects and judged against the network as it is then. "
                 "non-trivial = some non-zero supply and >= 2 arcs of positive capacity (assignment: >= 2x2 with >= 2 distinct "
-                "entries); distinct = different (n, ordered arcs, supplies, s, t, labels, steps) / matrix.")
+                "entries); distinct = different (n, ordered arcs, supplies, s, t, labels, steps) / matrix. A presented case (kind "
+                "'present' / 'assign-present') = plain instance + label specs + presentation record; the solver inputs are built "
+                "from it deterministically, every solver is called twice on them, answers are mapped back and judged on the plain "
+                "instance; distinct also by labels and presentation record.")
     ctx.assumptions += [
         "domain: integer capacities >= 0, integer costs, no negative-cost directed cycle among the arcs (capacities ignored), "
         "integer supplies summing to 0 / demand >= 0, source != sink, no self-loops",
@@ -1158,6 +1458,12 @@ def run(ctx: Ctx):
         "slowest call on the unchanged tree) and 10x that when re-run alone before 'terminates' is reported; after a sweep time-out "
         "the remaining big calls of that function in the same worker job are skipped and counted",
         "a feasible flow is of minimum cost iff its residual network has no negative-cost cycle (used to certify returned flows)",
+    ]
+    ctx.assumptions += [
+        "presentation diversity: the statement quantifies over networks, not over Python spellings; min_cost_flow is generic in "
+        "`Node`, so any pairwise different hashable labels are used (equal values of different type, 2 / 2.0 / True, name the same "
+        "node); the annotated containers are read by duck typing (dict subclasses, tuple for list, list for tuple) and an integer "
+        "may be spelled as a float with integral value; non-integral numbers, bools and one-shot iterables are not used",
     ]
     ctx.trusted += ["oracles/flow_exact.py: mcf_exact / mcf_spfa (both only through certify_optimal / certify_infeasible), mcf_brute, "
                     "decomposition_costs, pooled_flow_defects, split_pooled, negative_residual_cycle, assignment_brute, "
@@ -1177,9 +1483,17 @@ def replay(rec):
         print("in-process, last call of the sequence:", last[key])
         print("fresh process, equal objects         :", got.get(key))
         return 1 if json.loads(json.dumps(last[key])) != got.get(key) else 0
-    if case["kind"] == "flow":
+    if case["kind"] in ("flow", "present"):
         o = oracle_for(case["n"], [tuple(a) for a in case["arcs"]], list(case["supplies"]))
         print("oracle:", {k: v for k, v in o.items()})
+    if case["kind"] == "present":
+        pm = present_mcf(case)
+        if pm is not None:
+            print(f"presented call: min_cost_flow({pm[0]!r}, {pm[2]!r}, {pm[3]!r}, {pm[4]!r})  [twice on the same object]")
+        A, B = present_ns(case)
+        print(f"presented call: network_simplex({case['n']}, {A!r}, {B!r})  [twice on the same objects]")
+    if case["kind"] == "assign-present":
+        print(f"presented call: solve_assignment({fp.present_matrix(case['matrix'], case['pres'])!r})  [twice on the same object]")
     for o_, d in out:
         print("replay:", o_, "::", d)
     hit = [o_ for o_, _ in out if o_ == ob.split("@")[0]] or out
